@@ -1,6 +1,8 @@
 package ledger
 
 import (
+	"strings"
+	"os"
 	"context"
 	"errors"
 	"fmt"
@@ -213,7 +215,16 @@ func RunLong(w *World, o LongOpts) error {
 				// repeat until an attempt really was interrupted, and afterwards until an attempt from the main tip ran
 				fired := false
 				for a := 0; a < 40 && !fired; a++ {
-					fired = w.TruncateInterrupted(n, d, 1+w.R.Intn(40))
+					// cancel while the vertices below the cut are being persisted: after at least one and before the
+					// last of them (the walk from the heaviest tip has about live-1000 vertices below its cut)
+					below := len(n.Prev.Live) - 1002
+					if below < 2 {
+						below = 2
+					}
+					if below > 40 {
+						below = 40
+					}
+					fired = w.TruncateInterrupted(n, d, 1+w.R.Intn(below-1))
 				}
 				if n.Abandoned {
 					return nil
@@ -299,6 +310,9 @@ func RunLong(w *World, o LongOpts) error {
 	w.CheckBalances(w.Nodes[0], addrs)
 	// every wallet tries to spend one unit more than it owns, and every second one exactly what it owns
 	w.OverspendProbes(w.Nodes[0], d)
+	if f := os.Getenv("VERIF_DEBUG_LONG"); f != "" && o.Interrupt {
+		os.WriteFile(f, []byte(strings.Join(w.TruncLog, "\n")), 0o644)
+	}
 	return nil
 }
 
@@ -429,6 +443,7 @@ func (w *World) TruncateChecked(n *Node, d *Driver, race bool) {
 		d.enqueue(n, &racedVs[i])
 	}
 	w.Logf("%s.truncate (live %d, stored %d, tips %d, raced proposals %d) => %v", n.Name, len(before.Live), len(before.Stored), len(before.Leaves), raced, errStr(err))
+	w.TruncLog = append(w.TruncLog, fmt.Sprintf("truncate live=%d stored=%d tips=%d err=%v", len(before.Live), len(before.Stored), len(before.Leaves), errStr(err)))
 	after := w.Observe(n, OpInfo{Kind: "truncate", OK: err == nil, Err: err, Concurrent: race})
 	w.EvalFor("C07", 1)
 	w.Res.Count("c07_truncations", 1)
@@ -844,6 +859,7 @@ func (w *World) TruncateInterrupted(n *Node, d *Driver, m int) bool {
 	n.Interrupted = true
 	err := n.Book.VerifTruncate(c)
 	w.Logf("%s.truncate interrupted after %d stored vertices (live %d, stored %d) => %v", n.Name, m, len(before.Live), len(before.Stored), errStr(err))
+	w.TruncLog = append(w.TruncLog, fmt.Sprintf("interrupt attempt m=%d live=%d stored=%d tips=%d fired=%v err=%v", m, len(before.Live), len(before.Stored), len(before.Leaves), c.fired.Load(), errStr(err)))
 	after := w.Observe(n, OpInfo{Kind: "truncate", OK: err == nil, Err: err})
 	w.EvalFor("C07", 1)
 	w.Res.Count("c07_interrupted_truncation_attempts", 1)
